@@ -1,15 +1,27 @@
 """C05 — DoWhile unrolling is wired correctly for any number of iterations.
 
-Implementation under test (real code, in-process): a generated package (main FlowIR + imported DoWhile document)
-is loaded into a real Experiment; then, exactly as Controller._instantiate_next_dowhile_iteration does, the real
-WorkflowGraph.instantiate_dowhile_next_iteration(document, state['currentIteration'] + 1, True) is called k times.
-After every call the harness observes: components of the concrete FlowIR with their references, graph nodes and
-edges, WorkflowGraph._placeholders (represents as a set, latest), the DoWhile state, and the resolution by the real
-DataReference.resolve() of `:ref` / `:loopref` references to every placeholder and of the references of the
-outside consumers.
+Implementation under test (real code, in-process): a generated package (main FlowIR + 1-3 imported DoWhile documents)
+is loaded into a real Experiment.  Then a generated sequence of operations is applied:
 
-Model: lean/St4sd/Model/Loop.lean via drv-c05 (num=true: the repaired sort keys).  Theorems: lean/St4sd/Props/C05.lean.
-Oracle: the property text restated on the real observations (independent of the model).
+  ["adv", l]      document l instantiates its next iteration: with a Controller (most cases; built under the
+                  deterministic runtime harness/detsim.py: fake engines, no threads) the real
+                  Controller._instantiate_next_dowhile_iteration(dw_node) — i.e. WorkflowGraph.
+                  instantiate_dowhile_next_iteration + ComponentState creation + Controller.parse_workflow_graph —,
+                  otherwise WorkflowGraph.instantiate_dowhile_next_iteration(document, currentIteration + 1, True);
+  ["read", kind]  the Controller / a consumer READS the placeholders: generate_status_report_for_nodes (the dependency
+                  analysis Controller.initialise and every finishedCheck run), _comp_get_active_predecessors,
+                  get_node_state / get_placeholder_state, _true_nodes_from_identifiers, _input_dependencies_satisfied,
+                  DataReference.resolve / true_reference_to_component_id of the consumers.
+
+After the load and after EVERY operation the harness observes: components of the concrete FlowIR with their
+references, graph nodes and edges, WorkflowGraph._placeholders (represents, latest), the state of every DoWhile document,
+the Controller's registered condition producers and its dependency analysis of every placeholder, and the resolution
+by the real DataReference.resolve() of `:ref` / `:loopref` references to every placeholder and of the references of
+the outside consumers.
+
+Model: lean/St4sd/Model/Loop.lean + LoopMulti.lean via drv-c05 (`runOps`; num=true: the repaired sort keys).
+Theorems: lean/St4sd/Props/C05.lean.  Oracle: the property text restated on the real observations (independent of
+the model), per document with the document's own iteration count.
 """
 from __future__ import annotations
 
@@ -67,17 +79,24 @@ def cid(stage, name):
 NAMES = ["a", "b", "c", "calc", "x1", "step2", "add", "gen-1", "y_z", "n10", "s9"]
 COND_NAMES = ["stop", "check", "cond1", "a0"]
 METHODS = ["ref", "output", "copy", "link"]
+ARG_METHODS = ("ref", "output", "loopref", "loopoutput")
+# operations that only READ the placeholders: the first group needs a Controller
+READ_CTL = ["status", "status-active", "preds", "state", "deps"]
+READ_GRAPH = ["resolve"]
 
 
-def gen_case(rng, kmax, kchoices=None):
-    imp = rng.randint(0, 2)
-    nloop = rng.randint(1, 3)
-    names = rng.sample(NAMES, nloop)
-    cond_name = rng.choice([n for n in COND_NAMES if n not in names])
+def gen_loop(rng, imp, src_no, avoid_names):
+    """one DoWhile document imported at stage `imp` and the source components its bindings point to; `avoid_names`:
+    names that must not be used (None: any name)"""
+    pool = [n for n in NAMES if not avoid_names or n not in avoid_names]
+    cpool = [n for n in COND_NAMES if not avoid_names or n not in avoid_names]
+    nloop = rng.randint(1, min(3, len(pool)))
+    names = rng.sample(pool, nloop)
+    cond_name = rng.choice([n for n in cpool if n not in names])
     # input bindings; one outside source per binding so that no two bindings denote the same reference (a component
     # using both would declare a duplicate reference, which the loader rejects for unrelated reasons)
     nb = rng.randint(1, 3)
-    sources = [{"stage": rng.randint(0, imp), "name": "src%d" % i, "refs": []} for i in range(nb)]
+    sources = [{"stage": rng.randint(0, imp), "name": "src%d" % (src_no + i), "refs": []} for i in range(nb)]
     keys = ["in%d" % i for i in range(nb)]
     bind_method = {k: rng.choice(["output", "ref", "copy"]) for k in keys}
     bindings = []
@@ -109,16 +128,17 @@ def gen_case(rng, kmax, kchoices=None):
         return R(target["name"], m, stage=target["stage"], file=f)    # template-absolute spelling
 
     used_keys = set()
+    bfile = dict((b["key"], b["ref"]["file"]) for b in bindings)
     for c in comps:
         earlier = [t for t in order if t is not c and (t["stage"] < c["stage"] or
                                                         (t["stage"] == c["stage"] and order.index(t) < order.index(c)))]
-        if (c["stage"], c["name"]) != (cond_stage, cond_name) or not earlier:
+        is_cond = (c["stage"], c["name"]) == (cond_stage, cond_name)
+        if not is_cond or not earlier:
             for k in rng.sample(keys, rng.randint(0 if earlier else 1, min(2, nb))):
                 c["refs"].append(R(k, bind_method[k], stage=None,
-                                   file="" if bind_method[k] == "output" or dict((b["key"], b) for b in bindings)[k]["ref"]["file"]
-                                   else rng.choice(["", "sub.txt"])))
+                                   file="" if bind_method[k] == "output" or bfile[k] else rng.choice(["", "sub.txt"])))
                 used_keys.add(k)
-        for t in rng.sample(earlier, min(len(earlier), rng.randint(1 if (c["stage"], c["name"]) == (cond_stage, cond_name) else 0, 2))):
+        for t in rng.sample(earlier, min(len(earlier), rng.randint(1 if is_cond else 0, 2))):
             c["refs"].append(internal_ref(c, t))
         if rng.random() < 0.15:
             c["refs"].append(R("data", "ref", file="d.txt", direct=True))
@@ -131,9 +151,8 @@ def gen_case(rng, kmax, kchoices=None):
         if rng.random() < 0.7 and free_targets:
             t = free_targets.pop()         # distinct targets: no duplicate references after projection
             f = ""
-            bf = dict((b["key"], b) for b in bindings)[k]["ref"]["file"]
             if bind_method[k] != "output":
-                f = bf  # same file name as the original binding (a use site may override only an empty one)
+                f = bfile[k]  # same file name as the original binding (a use site may override only an empty one)
             spelled_stage = t["stage"] if (t["stage"] > 0 or rng.random() < 0.5) else None
             loop_bindings.append({"key": k, "ref": R(t["name"], bind_method[k], stage=spelled_stage, file=f)})
     # a component that uses a loop-carried binding fed by looped component t may also read t of its own iteration
@@ -155,31 +174,104 @@ def gen_case(rng, kmax, kchoices=None):
             idx.append(rng.choice(idx))
             c["args"] = idx
     cond_file = rng.choice(["", "next.txt"])
-    # outside consumers
-    last = imp + max(c["stage"] for c in comps)
+    loop = {"import": imp, "loop": comps, "bindings": bindings, "loopBindings": loop_bindings,
+            "cond": {"stage": cond_stage, "name": cond_name, "file": cond_file}}
+    return loop, sources
+
+
+def gen_ops(rng, ks, ctl):
+    """an interleaving of the documents' iterations with reads in between"""
+    nl = len(ks)
+    mode = rng.choice(["seq", "revseq", "random", "random"]) if nl > 1 else "seq"
+    order = list(range(nl))
+    if mode == "revseq":
+        order.reverse()
+    advs = [l for l in order for _ in range(ks[l])]
+    if mode == "random":
+        rng.shuffle(advs)
+    ops = [["adv", l] for l in advs]
+    kinds = (READ_CTL + READ_GRAPH) if ctl else READ_GRAPH
+    if rng.random() < 0.75:
+        for _ in range(rng.randint(1, 4)):
+            ops.insert(rng.randint(0, len(ops)), ["read", rng.choice(kinds)])
+        if rng.random() < 0.8:
+            ops.append(["read", rng.choice(kinds)])
+    return ops, mode
+
+
+def gen_case(rng, budget, kchoices):
+    nl = rng.choice([1, 1, 2, 2, 2, 3])
+    loops, sources, taken, used_names = [], [], set(), set()
+    for l in range(nl):
+        imp = rng.randint(0, 2)
+        share = rng.random() < 0.5     # documents may use the same component names in different stages
+        for attempt in range(12):
+            lp, srcs = gen_loop(rng, imp, len(sources), None if (share and attempt < 6) else used_names)
+            ids = {(c["stage"] + imp, c["name"]) for c in lp["loop"]}
+            if not (ids & taken):
+                break
+        taken |= ids
+        used_names |= {c["name"] for c in lp["loop"]}
+        loops.append(lp)
+        sources.extend(srcs)
+    everything = [(lp, c) for lp in loops for c in lp["loop"]]
+    last = max(lp["import"] + c["stage"] for lp, c in everything)
     consumers = []
-    nplain = rng.randint(1, 2)
-    for i in range(nplain):
-        t = rng.choice(comps)
+    for i in range(rng.randint(1, 2)):
+        lp, t = rng.choice(everything)
         m = rng.choice(["ref", "output", "copy"])
         consumers.append({"stage": last + rng.randint(0, 1), "name": "plain%d" % i,
-                          "refs": [R(t["name"], m, stage=t["stage"] + imp, file="" if m == "output" else rng.choice(["", "f.csv"]))]})
+                          "refs": [R(t["name"], m, stage=t["stage"] + lp["import"],
+                                     file="" if m == "output" else rng.choice(["", "f.csv"]))]})
+    if nl > 1 and rng.random() < 0.6:
+        # one consumer of the newest instance of a looped component of every document
+        refs = []
+        for lp in loops:
+            t = rng.choice(lp["loop"])
+            m = rng.choice(["ref", "output", "copy"])
+            refs.append(R(t["name"], m, stage=t["stage"] + lp["import"], file="" if m == "output" else rng.choice(["", "f.csv"])))
+        consumers.append({"stage": last + rng.randint(0, 1), "name": "report", "refs": refs})
     for i in range(rng.randint(1, 2)):
-        t = rng.choice(comps)
-        refs = [R(t["name"], "loopref", stage=t["stage"] + imp, file=rng.choice(["", "f.csv"]))]
+        lp, t = rng.choice(everything)
+        refs = [R(t["name"], "loopref", stage=t["stage"] + lp["import"], file=rng.choice(["", "f.csv"]))]
         if rng.random() < 0.3:
-            t2 = rng.choice(comps)
-            refs.append(R(t2["name"], "ref", stage=t2["stage"] + imp))
+            lp2, t2 = rng.choice(everything)
+            refs.append(R(t2["name"], "ref", stage=t2["stage"] + lp2["import"]))
         consumers.append({"stage": last + rng.randint(0, 1), "name": "agg%d" % i, "refs": refs})
     # the loader requires the stage indices of a package to be contiguous from 0
-    used = {c["stage"] for c in sources + consumers} | {c["stage"] + imp for c in comps}
+    used = {c["stage"] for c in sources + consumers} | {c["stage"] + lp["import"] for lp, c in everything}
     for st in range(max(used) + 1):
         if st not in used:
             sources.append({"stage": st, "name": "fill%d" % st, "refs": []})
-    k = rng.choice(kchoices) if kchoices else rng.randint(0, kmax)
-    return {"import": imp, "loop": comps, "bindings": bindings, "loopBindings": loop_bindings,
-            "cond": {"stage": cond_stage, "name": cond_name, "file": cond_file},
-            "sources": sources, "consumers": consumers, "k": k}
+    ks = [rng.choice(kchoices) for _ in range(nl)]
+    while sum(ks) > budget:
+        i = ks.index(max(ks))
+        ks[i] = rng.randint(0, max(0, ks[i] - 1)) if nl > 1 else budget
+    r = rng.random()
+    if nl > 1 and r < 0.3:
+        ks.sort()                      # the document listed first is the one that iterates least
+    elif nl > 1 and r < 0.45:
+        ks.sort(reverse=True)
+    ctl = rng.random() < 0.65
+    ops, mode = gen_ops(rng, ks, ctl)
+    return {"loops": loops, "sources": sources, "consumers": consumers, "ops": ops, "ctl": ctl, "mode": mode}
+
+
+def norm(case):
+    """cases written before the generator produced several documents: one document, `k` iterations, no reads"""
+    if "loops" in case:
+        return case
+    lp = {k: case[k] for k in ("import", "loop", "bindings", "loopBindings", "cond")}
+    return {"loops": [lp], "sources": case["sources"], "consumers": case["consumers"],
+            "ops": [["adv", 0]] * case["k"], "ctl": bool(case.get("ctl", False)), "mode": "seq"}
+
+
+def counts(ops, nl):
+    ks = [0] * nl
+    for op in ops:
+        if op[0] == "adv" and op[1] < nl:
+            ks[op[1]] += 1
+    return ks
 
 
 MINIMAL = {
@@ -193,9 +285,6 @@ MINIMAL = {
     "consumers": [{"stage": 2, "name": "plain0", "refs": [R("x", "ref", stage=1)]},
                   {"stage": 2, "name": "agg0", "refs": [R("x", "loopref", stage=1)]}],
 }
-
-
-ARG_METHODS = ("ref", "output", "loopref", "loopoutput")
 
 
 def arg_indices(c):
@@ -235,6 +324,39 @@ REPEATED_ARG = {
 }
 
 
+def _same_template(imp):
+    return {"import": imp,
+            "loop": [{"stage": 0, "name": "x", "refs": [R("in0", "output")]},
+                     {"stage": 0, "name": "stop", "refs": [R("x", "output")]}],
+            "bindings": [{"key": "in0", "ref": R("src0", "output", stage=0)}],
+            "loopBindings": [{"key": "in0", "ref": R("x", "output")}],
+            "cond": {"stage": 0, "name": "stop", "file": ""}}
+
+
+# restart at stage 2 (the Controller marks the placeholders of the document in stage 1 as finished), then the document
+# of stage 2 iterates.  Not part of the default corpus: see fixes/C05-finished-placeholders-keep-their-instances.diff
+RESTART_TWO_DOCUMENTS = {
+    "loops": [_same_template(1), _same_template(2)],
+    "sources": [{"stage": 0, "name": "src0", "refs": []}],
+    "consumers": [{"stage": 3, "name": "report", "refs": [R("x", "ref", stage=1), R("x", "ref", stage=2)]}],
+    "ops": [["adv", 1], ["read", "status"], ["adv", 1]],
+    "ctl": True, "start": 2, "mode": "seq",
+}
+
+# the same template imported twice; the document listed first iterates less than the second, the Controller analyses
+# its dependencies in between and at the end
+TWO_DOCUMENTS = {
+    "loops": [_same_template(1), _same_template(2)],
+    "sources": [{"stage": 0, "name": "src0", "refs": []}],
+    "consumers": [{"stage": 3, "name": "report", "refs": [R("x", "ref", stage=1), R("x", "ref", stage=2)]},
+                  {"stage": 3, "name": "agg0", "refs": [R("x", "loopref", stage=1)]},
+                  {"stage": 3, "name": "agg1", "refs": [R("x", "loopref", stage=2)]}],
+    "ops": [["adv", 0], ["read", "status"], ["adv", 1], ["adv", 1], ["read", "preds"], ["adv", 1], ["read", "state"],
+            ["read", "status-active"], ["read", "deps"], ["read", "resolve"]],
+    "ctl": True, "mode": "seq",
+}
+
+
 def comp_yaml(c, loop=False):
     d = {"name": c["name"], "stage": c["stage"],
          "command": {"executable": "echo", "arguments": args_text(c) or "hello"},
@@ -242,29 +364,45 @@ def comp_yaml(c, loop=False):
     return d
 
 
+def dw_file(l):
+    return "dowhile%d.yaml" % l
+
+
+def dw_name(case, l):
+    return "stage%d.loop%d" % (case["loops"][l]["import"], l)
+
+
 def package_for(case):
+    """(main FlowIR text, {relative path: text} of the imported documents)"""
     import yaml
-    dw = {"type": "DoWhile",
-          "inputBindings": {b["key"]: {"type": b["ref"]["method"]} for b in case["bindings"]},
-          "loopBindings": {b["key"]: ref_text(b["ref"]) for b in case["loopBindings"]},
-          "condition": ref_text(R(case["cond"]["name"], "output", stage=case["cond"]["stage"], file=case["cond"]["file"])),
-          "components": [comp_yaml(c, True) for c in case["loop"]]}
-    if not dw["loopBindings"]:
-        del dw["loopBindings"]
-    main = {"components": [comp_yaml(c) for c in case["sources"]] +
-            [{"stage": case["import"], "name": "loop", "$import": "dowhile.yaml",
-              "bindings": {b["key"]: ref_text(b["ref"]) for b in case["bindings"]}}] +
-            [comp_yaml(c) for c in case["consumers"]]}
-    return yaml.safe_dump(main), yaml.safe_dump(dw)
+    case = norm(case)
+    extra = {"data/d.txt": "d\n"}
+    stubs = []
+    for l, lp in enumerate(case["loops"]):
+        dw = {"type": "DoWhile",
+              "inputBindings": {b["key"]: {"type": b["ref"]["method"]} for b in lp["bindings"]},
+              "loopBindings": {b["key"]: ref_text(b["ref"]) for b in lp["loopBindings"]},
+              "condition": ref_text(R(lp["cond"]["name"], "output", stage=lp["cond"]["stage"], file=lp["cond"]["file"])),
+              "components": [comp_yaml(c, True) for c in lp["loop"]]}
+        if not dw["loopBindings"]:
+            del dw["loopBindings"]
+        extra["conf/" + dw_file(l)] = yaml.safe_dump(dw)
+        stubs.append({"stage": lp["import"], "name": "loop%d" % l, "$import": dw_file(l),
+                      "bindings": {b["key"]: ref_text(b["ref"]) for b in lp["bindings"]}})
+    main = {"components": [comp_yaml(c) for c in case["sources"]] + stubs + [comp_yaml(c) for c in case["consumers"]]}
+    return yaml.safe_dump(main), extra
 
 
 def model_request(case, num=True):
+    case = norm(case)
+
     def comp(c):
         return {"stage": c["stage"], "name": c["name"], "refs": c["refs"], "args": [c["refs"][i] for i in arg_indices(c)]}
-    return {"op": "run", "num": num, "k": case["k"],
-            "doc": {"comps": [comp(c) for c in case["loop"]], "bindings": case["bindings"],
-                    "loopBindings": case["loopBindings"], "condStage": case["cond"]["stage"],
-                    "condName": case["cond"]["name"], "condFile": case["cond"]["file"], "importStage": case["import"]},
+    docs = [{"comps": [comp(c) for c in lp["loop"]], "bindings": lp["bindings"], "loopBindings": lp["loopBindings"],
+             "condStage": lp["cond"]["stage"], "condName": lp["cond"]["name"], "condFile": lp["cond"]["file"],
+             "importStage": lp["import"]} for lp in case["loops"]]
+    return {"op": "runm", "num": num, "docs": docs,
+            "ops": [["adv", op[1]] if op[0] == "adv" else ["read"] for op in case["ops"]],
             "out": [comp(c) for c in case["sources"] + case["consumers"]]}
 
 
@@ -281,7 +419,24 @@ def path_to_id(path, root):
     return "?" + rel, ""
 
 
-def observe(wg, case, G):
+def resolve_consumer(wg, spec, root):
+    res = []
+    for dr in spec.dataReferences:
+        try:
+            if dr.method == "output":
+                # resolve() of :output reads the producer's stdout file (not there: nothing ran); the producer it
+                # reads from is the one true_reference_to_component_id reports
+                res.append([dr.stringRepresentation,
+                            [[cid(*x), ""] for x in dr.true_reference_to_component_id(wg)]])
+            else:
+                res.append([dr.stringRepresentation,
+                            [list(path_to_id(x, root)) for x in dr.resolve(wg).split()]])
+        except Exception as exc:  # noqa
+            res.append([dr.stringRepresentation, "error:" + type(exc).__name__])
+    return sorted(res)
+
+
+def observe(wg, case, G, ctl=None):
     import experiment.model.frontends.flowir as F
     concrete = wg._concrete
     comps = {}
@@ -290,11 +445,11 @@ def observe(wg, case, G):
         comps[cid(stage, name)] = {"refs": list(conf.get("references", [])),
                                    "args": conf.get("command", {}).get("arguments")}
     root = wg.rootStorage.location
-    dw_name = list(wg._documents["DoWhile"].keys())[0]
-    node = wg.get_document_metadata("DoWhile", dw_name)
+    nodes = [wg.get_document_metadata("DoWhile", dw_name(case, l)) for l in range(len(case["loops"]))]
     placeholders = {}
     for p, d in wg._placeholders.items():
-        e = {"latest": d["latest"], "represents": sorted(d["represents"]), "n_represents": len(d["represents"])}
+        e = {"latest": d["latest"], "represents": sorted(d["represents"]), "n_represents": len(d["represents"]),
+             "dw": d.get("DoWhileId")}
         try:
             e["ref"] = path_to_id(G.DataReference(p + ":ref").resolve(wg), root)[0]
         except Exception as exc:  # noqa
@@ -305,7 +460,7 @@ def observe(wg, case, G):
             e["loopref"] = "error:" + type(exc).__name__
         try:
             pc = G.ComponentIdentifier(p)
-            m = F.map_placeholder_id_to_iteration((pc.stageIndex, pc.componentName), [node],
+            m = F.map_placeholder_id_to_iteration((pc.stageIndex, pc.componentName), nodes,
                                                   concrete.get_component_identifiers(True, False))
             e["maplatest"] = cid(*m) if m else None
         except Exception as exc:  # noqa
@@ -314,57 +469,128 @@ def observe(wg, case, G):
     consumers = {}
     for c in case["consumers"]:
         spec = wg.graph.nodes[cid(c["stage"], c["name"])]["componentSpecification"]
-        res = []
-        for dr in spec.dataReferences:
-            try:
-                if dr.method == "output":
-                    # resolve() of :output reads the producer's stdout file (not there: nothing ran); the producer it
-                    # reads from is the one true_reference_to_component_id reports
-                    res.append([dr.stringRepresentation,
-                                [[cid(*x), ""] for x in dr.true_reference_to_component_id(wg)]])
-                else:
-                    res.append([dr.stringRepresentation,
-                                [list(path_to_id(x, root)) for x in dr.resolve(wg).split()]])
-            except Exception as exc:  # noqa
-                res.append([dr.stringRepresentation, "error:" + type(exc).__name__])
-        consumers[c["name"]] = sorted(res)
-    return {"comps": comps, "nodes": sorted(wg.graph.nodes), "edges": sorted([a, b] for a, b in wg.graph.edges),
-            "placeholders": placeholders, "state": dict(node["state"]), "consumers": consumers,
-            "doc_bindings": dict(node["document"].get("bindings", {})),
-            "doc_loopBindings": dict(node["document"].get("loopBindings", {}))}
+        consumers[c["name"]] = resolve_consumer(wg, spec, root)
+    obs = {"comps": comps, "nodes": sorted(wg.graph.nodes), "edges": sorted([a, b] for a, b in wg.graph.edges),
+           "placeholders": placeholders, "consumers": consumers,
+           "docs": [{"state": dict(n["state"]), "bindings": dict(n["document"].get("bindings", {})),
+                     "loopBindings": dict(n["document"].get("loopBindings", {}))} for n in nodes]}
+    if ctl is not None:
+        # an attribute of the Controller, set by parse_workflow_graph: {producer of the current condition: document}
+        obs["ctl_conditions"] = dict(ctl.comp_condition_to_dowhile)
+    return obs
+
+
+def do_read(kind, wg, case, G, ctl):
+    """operations of the real code that only read the placeholders; returns what the Controller's dependency analysis
+    reported for the placeholders (kind `preds`), None otherwise"""
+    root = wg.rootStorage.location
+    names = list(wg._placeholders)
+    if ctl is None or kind == "resolve":
+        for c in case["consumers"]:
+            spec = wg.graph.nodes[cid(c["stage"], c["name"])]["componentSpecification"]
+            resolve_consumer(wg, spec, root)
+            for dr in spec.dataReferences:
+                dr.true_reference_to_component_id(wg)
+            list(wg.graph.predecessors(cid(c["stage"], c["name"])))
+        for p in names:
+            for m in ("ref", "loopref", "copy"):
+                G.DataReference("%s:%s" % (p, m)).resolve(wg)
+        return None
+    if kind == "status":
+        ctl.generate_status_report_for_nodes(components=None, filter_done=False)
+    elif kind == "status-active":
+        ctl.generate_status_report_for_nodes(components=None, filter_done=True)
+    elif kind == "preds":
+        out = {}
+        for p in names:
+            r = ctl._comp_get_active_predecessors(p)
+            out[p] = {"producers": sorted(r["producers"]), "n": len(r["producers"]), "subjects": sorted(r["subjects"])}
+        return out
+    elif kind == "state":
+        for p in names:
+            ctl.get_node_state(p)
+            ctl.get_placeholder_state(p)
+            ctl.node_is_active(p)
+        ctl._true_nodes_from_identifiers(names, only_latest_looped=True)
+        ctl._true_nodes_from_identifiers(names, only_latest_looped=False)
+        for st in range(len(ctl.experiment._stages)):
+            ctl._get_placeholder_nodes_in_stage(st)
+    elif kind == "deps":
+        # the scheduler's question for the outside consumers and the newest instances
+        for c in case["consumers"]:
+            ctl._input_dependencies_satisfied(ctl.get_compstate(cid(c["stage"], c["name"])))
+        for p in names:
+            latest = wg._placeholders[p]["latest"]
+            if wg.graph.has_node(latest):
+                ctl._input_dependencies_satisfied(ctl.get_compstate(latest))
+    else:
+        raise ValueError("unknown read %r" % kind)
+    return None
 
 
 def impl_run(case, tmp):
-    """returns {"steps": [observation_0 … observation_k]} or {"error": …, "steps": […so far]}"""
+    """returns {"steps": [observation after the load, after op 1, …]} or {"error": …, "steps": […so far]}"""
+    from harness import detsim
+    env = detsim.install()
     import tests.utils as TU
     import experiment.model.graph as G
-    main, dw = package_for(case)
+    case = norm(case)
+    main, extra = package_for(case)
     cwd = os.getcwd()
     steps = []
     prev = logging.root.manager.disable
     logging.disable(logging.CRITICAL)
+    n_int, n_eng = len(env["intervals"]), len(env["ENGINES"])
+    exp = None
     try:
         try:
-            exp = TU.experiment_from_flowir(main, tmp, extra_files={"conf/dowhile.yaml": dw, "data/d.txt": "d\n"},
-                                            checkExecutables=False)
+            exp = TU.experiment_from_flowir(main, tmp, extra_files=extra, checkExecutables=False)
         except Exception as exc:  # noqa
             return {"error": "load:" + type(exc).__name__, "msg": str(exc)[-1500:], "steps": steps}
         wg = exp.experimentGraph
+        ctl = None
+        where = "controller"
         try:
-            steps.append(observe(wg, case, G))
-            for _ in range(case["k"]):
-                dw_name = list(wg._documents["DoWhile"].keys())[0]
-                node = wg.get_document_metadata("DoWhile", dw_name)
-                nxt = node["state"]["currentIteration"] + 1
-                wg.instantiate_dowhile_next_iteration(node["document"], nxt, True)
-                steps.append(observe(wg, case, G))
+            if case.get("ctl"):
+                # `start` > 0: the Controller starts at a later stage (restart): the components and placeholders of
+                # the earlier stages are marked as finished
+                start = int(case.get("start", 0))
+                ctl, _ = TU.new_controller(exp, initial_stage=start)
+                # Controller.initialise runs the dependency analysis of every node and placeholder
+                ctl.initialise(exp._stages[start], detsim.FakeStatus())
+            where = "observe"
+            steps.append(observe(wg, case, G, ctl))
+            for op in case["ops"]:
+                if op[0] == "adv":
+                    where = "iterate"
+                    node = wg.get_document_metadata("DoWhile", dw_name(case, op[1]))
+                    if ctl is not None:
+                        ctl._instantiate_next_dowhile_iteration(node)
+                    else:
+                        wg.instantiate_dowhile_next_iteration(node["document"], node["state"]["currentIteration"] + 1, False)
+                    preds = None
+                else:
+                    where = "read-" + op[1]
+                    preds = do_read(op[1], wg, case, G, ctl)
+                where = "observe"
+                obs = observe(wg, case, G, ctl)
+                if preds is not None:
+                    obs["ctl_preds"] = preds
+                steps.append(obs)
         except Exception as exc:  # noqa
             import traceback
-            return {"error": "iterate:" + type(exc).__name__, "msg": traceback.format_exc()[-1500:], "steps": steps}
+            return {"error": "%s:%s" % (where, type(exc).__name__), "msg": traceback.format_exc()[-1500:], "steps": steps}
         return {"steps": steps}
     finally:
-        logging.disable(prev)
+        logging.disable(prev if isinstance(prev, int) else logging.CRITICAL)
         os.chdir(cwd)
+        for _, s in env["intervals"][n_int:]:
+            try:
+                s.on_completed()
+            except Exception:
+                pass
+        del env["intervals"][n_int:]
+        del env["ENGINES"][n_eng:]
         try:
             shutil.rmtree(exp.instanceDirectory.location, ignore_errors=True)  # noqa
         except Exception:
@@ -375,12 +601,12 @@ def impl_run(case, tmp):
 # oracle: the property text restated on the observations (independent of the Lean model)
 # ----------------------------------------------------------------------------------------
 
-def expected_refs(case, c, i):
-    """references of instance i of template component c according to the property text"""
-    imp = case["import"]
-    loop_ids = {(t["stage"] + imp, t["name"]) for t in case["loop"]}
-    binds = {b["key"]: b["ref"] for b in case["bindings"]}
-    lbinds = {b["key"]: b["ref"] for b in case["loopBindings"]}
+def expected_refs(lp, c, i):
+    """references of instance i of template component c of document lp according to the property text"""
+    imp = lp["import"]
+    loop_ids = {(t["stage"] + imp, t["name"]) for t in lp["loop"]}
+    binds = {b["key"]: b["ref"] for b in lp["bindings"]}
+    lbinds = {b["key"]: b["ref"] for b in lp["loopBindings"]}
     out = []
     for r in c["refs"]:
         if r["direct"]:
@@ -401,83 +627,118 @@ def expected_refs(case, c, i):
     return out
 
 
-def oracle_step(case, j, obs, base_nodes):
-    """list of (slug, detail) for the observation after j further iterations"""
+def oracle_step(case, ks, obs):
+    """list of (slug, detail) for an observation made when document l has instantiated ks[l] further iterations"""
     bad = []
-    imp = case["import"]
-    want = {cid(c["stage"] + imp, "%d#%s" % (i, c["name"])) for c in case["loop"] for i in range(j + 1)}
+    loops = case["loops"]
+    want = {cid(c["stage"] + lp["import"], "%d#%s" % (i, c["name"]))
+            for l, lp in enumerate(loops) for c in lp["loop"] for i in range(ks[l] + 1)}
     outside = {cid(c["stage"], c["name"]) for c in case["sources"] + case["consumers"]}
     got_nodes = set(obs["nodes"])
     got_comps = set(obs["comps"])
-    if got_nodes != want | outside or got_comps != want | outside:
-        bad.append(("instances-not-exactly-0-to-k", {"j": j, "missing": sorted((want | outside) - got_nodes),
+    if got_nodes != want | outside or got_comps != want | outside or len(obs["nodes"]) != len(got_nodes):
+        bad.append(("instances-not-exactly-0-to-k", {"ks": ks, "j": max(ks), "missing": sorted((want | outside) - got_nodes),
                                                        "unexpected": sorted(got_nodes - (want | outside)),
                                                        "concrete_missing": sorted((want | outside) - got_comps),
                                                        "concrete_unexpected": sorted(got_comps - (want | outside))}))
-    for c in case["loop"]:
-        for i in range(j + 1):
-            name = cid(c["stage"] + imp, "%d#%s" % (i, c["name"]))
-            if name not in obs["comps"]:
-                continue
-            exp = expected_refs(case, c, i)
-            got = obs["comps"][name]
-            if got["refs"] != exp:
-                bad.append(("wiring-references-of-instance", {"j": j, "instance": name, "expected": exp, "got": got["refs"]}))
-            elif args_text(c, exp) and got["args"] != args_text(c, exp):
-                bad.append(("wiring-arguments-of-instance", {"j": j, "instance": name, "expected": args_text(c, exp),
-                                                             "got": got["args"]}))
-            # dataflow edges: every component reference of the instance is an edge of the graph
-            for t in exp:
-                pr = ref_parse(t)
-                if pr.get("direct") or pr["method"] in AGG:
+    all_placeholders = set()
+    for l, lp in enumerate(loops):
+        imp, j = lp["import"], ks[l]
+        for c in lp["loop"]:
+            for i in range(j + 1):
+                name = cid(c["stage"] + imp, "%d#%s" % (i, c["name"]))
+                if name not in obs["comps"]:
                     continue
-                if [cid(pr["stage"], pr["producer"]), name] not in obs["edges"]:
-                    bad.append(("wiring-edge-missing", {"j": j, "instance": name, "producer": cid(pr["stage"], pr["producer"])}))
-    for c in case["loop"]:
-        p = cid(c["stage"] + imp, c["name"])
-        ph = obs["placeholders"].get(p)
-        insts = [cid(c["stage"] + imp, "%d#%s" % (i, c["name"])) for i in range(j + 1)]
-        if ph is None:
-            bad.append(("placeholder-missing", {"j": j, "placeholder": p}))
-            continue
-        if ph["represents"] != sorted(insts) or ph["n_represents"] != len(insts):
-            bad.append(("placeholder-represents-not-all-instances", {"j": j, "placeholder": p, "got": ph["represents"]}))
-        if ph["latest"] != insts[-1] or ph["ref"] != insts[-1]:
-            bad.append(("outside-reference-not-numerically-latest-instance",
-                        {"j": j, "placeholder": p, "expected": insts[-1], "latest": ph["latest"], "resolved": ph["ref"]}))
-        if ph["loopref"] != insts:
-            bad.append(("loopref-not-in-increasing-iteration-order",
-                        {"j": j, "placeholder": p, "expected": insts, "got": ph["loopref"]}))
+                exp = expected_refs(lp, c, i)
+                got = obs["comps"][name]
+                if got["refs"] != exp:
+                    bad.append(("wiring-references-of-instance", {"j": j, "loop": l, "instance": name, "expected": exp,
+                                                                  "got": got["refs"]}))
+                elif args_text(c, exp) and got["args"] != args_text(c, exp):
+                    bad.append(("wiring-arguments-of-instance", {"j": j, "loop": l, "instance": name,
+                                                                 "expected": args_text(c, exp), "got": got["args"]}))
+                # dataflow edges: every component reference of the instance is an edge of the graph
+                for t in exp:
+                    pr = ref_parse(t)
+                    if pr.get("direct") or pr["method"] in AGG:
+                        continue
+                    if [cid(pr["stage"], pr["producer"]), name] not in obs["edges"]:
+                        bad.append(("wiring-edge-missing", {"j": j, "loop": l, "instance": name,
+                                                            "producer": cid(pr["stage"], pr["producer"])}))
+        for c in lp["loop"]:
+            p = cid(c["stage"] + imp, c["name"])
+            all_placeholders.add(p)
+            ph = obs["placeholders"].get(p)
+            insts = [cid(c["stage"] + imp, "%d#%s" % (i, c["name"])) for i in range(j + 1)]
+            if ph is None:
+                bad.append(("placeholder-missing", {"j": j, "loop": l, "placeholder": p}))
+                continue
+            if ph["represents"] != sorted(insts) or ph["n_represents"] != len(insts):
+                bad.append(("placeholder-represents-not-all-instances", {"j": j, "loop": l, "placeholder": p,
+                                                                         "got": ph["represents"]}))
+            if ph["latest"] != insts[-1] or ph["ref"] != insts[-1]:
+                bad.append(("outside-reference-not-numerically-latest-instance",
+                            {"j": j, "loop": l, "placeholder": p, "expected": insts[-1], "latest": ph["latest"],
+                             "resolved": ph["ref"]}))
+            if ph["loopref"] != insts:
+                bad.append(("loopref-not-in-increasing-iteration-order",
+                            {"j": j, "loop": l, "placeholder": p, "expected": insts, "got": ph["loopref"]}))
+        cond = lp["cond"]
+        want_cond = ref_text(R("%d#%s" % (j, cond["name"]), "output", stage=cond["stage"] + imp, file=cond["file"]))
+        doc = obs["docs"][l]
+        if doc["state"].get("currentIteration") != j or doc["state"].get("currentCondition") != want_cond:
+            bad.append(("current-condition-not-iteration-k", {"j": j, "loop": l, "expected": want_cond, "state": doc["state"]}))
+        if "ctl_conditions" in obs:
+            # the Controller's view of the loop's current condition: the component whose termination decides on the
+            # next iteration of this document
+            mine = sorted(k for k, v in obs["ctl_conditions"].items() if v == dw_name(case, l))
+            if mine != [cid(cond["stage"] + imp, "%d#%s" % (j, cond["name"]))]:
+                bad.append(("controller-condition-not-iteration-k", {"j": j, "loop": l, "registered": mine}))
+        # stage indices of the stored bindings do not drift
+        if doc["loopBindings"] != {b["key"]: ref_text(b["ref"]) for b in lp["loopBindings"]}:
+            bad.append(("stored-loopbindings-drift", {"j": j, "loop": l, "got": doc["loopBindings"]}))
+        if doc["bindings"] != {b["key"]: ref_text(b["ref"]) for b in lp["bindings"]}:
+            bad.append(("stored-bindings-drift", {"j": j, "loop": l, "got": doc["bindings"]}))
+    if set(obs["placeholders"]) - all_placeholders:
+        bad.append(("placeholder-unexpected", {"ks": ks, "got": sorted(set(obs["placeholders"]) - all_placeholders)}))
     for c in case["consumers"]:
         got = dict((a, b) for a, b in obs["consumers"].get(c["name"], []))
         for r in c["refs"]:
-            tgt = [t for t in case["loop"] if (t["stage"] + imp, t["name"]) == (r["stage"], r["producer"])][0]
+            l, tgt = [(l, t) for l, lp in enumerate(loops) for t in lp["loop"]
+                      if (t["stage"] + lp["import"], t["name"]) == (r["stage"], r["producer"])][0]
+            j = ks[l]
             insts = [cid(r["stage"], "%d#%s" % (i, tgt["name"])) for i in range(j + 1)]
             res = got.get(ref_text(r))
             if r["method"] in AGG:
                 if res != [[x, r["file"]] for x in insts]:
                     bad.append(("loopref-not-in-increasing-iteration-order",
-                                {"j": j, "consumer": c["name"], "reference": ref_text(r), "got": res}))
+                                {"j": j, "loop": l, "consumer": c["name"], "reference": ref_text(r), "got": res}))
             elif r["method"] != "output":
                 if res != [[insts[-1], r["file"]]]:
                     bad.append(("outside-reference-not-numerically-latest-instance",
-                                {"j": j, "consumer": c["name"], "reference": ref_text(r), "got": res,
+                                {"j": j, "loop": l, "consumer": c["name"], "reference": ref_text(r), "got": res,
                                  "expected": insts[-1]}))
             else:
                 if not (isinstance(res, list) and len(res) == 1 and res[0][0] == insts[-1]):
                     bad.append(("outside-reference-not-numerically-latest-instance",
-                                {"j": j, "consumer": c["name"], "reference": ref_text(r), "got": res,
+                                {"j": j, "loop": l, "consumer": c["name"], "reference": ref_text(r), "got": res,
                                  "expected": insts[-1]}))
-    cond = case["cond"]
-    want_cond = ref_text(R("%d#%s" % (j, cond["name"]), "output", stage=cond["stage"] + imp, file=cond["file"]))
-    if obs["state"].get("currentIteration") != j or obs["state"].get("currentCondition") != want_cond:
-        bad.append(("current-condition-not-iteration-k", {"j": j, "expected": want_cond, "state": obs["state"]}))
-    # stage indices of the stored bindings do not drift
-    if obs["doc_loopBindings"] != {b["key"]: ref_text(b["ref"]) for b in case["loopBindings"]}:
-        bad.append(("stored-loopbindings-drift", {"j": j, "got": obs["doc_loopBindings"]}))
-    if obs["doc_bindings"] != {b["key"]: ref_text(b["ref"]) for b in case["bindings"]}:
-        bad.append(("stored-bindings-drift", {"j": j, "got": obs["doc_bindings"]}))
     return bad
+
+
+def oracle_run(case, out):
+    """[(slug, detail)]: first failure of every clause over all observations of the run"""
+    case = norm(case)
+    res, seen = [], set()
+    nl = len(case["loops"])
+    for n, obs in enumerate(out["steps"]):
+        ks = counts(case["ops"][:n], nl)
+        for slug, detail in oracle_step(case, ks, obs):
+            if slug not in seen:      # first observation at which this clause fails
+                seen.add(slug)
+                detail = dict(detail, after_ops=n, last_op=case["ops"][n - 1] if n else None)
+                res.append((slug, detail))
+    return res
 
 
 # ----------------------------------------------------------------------------------------
@@ -494,34 +755,44 @@ def canon_impl_step(obs):
               "maplatest": d["maplatest"]}
           for p, d in obs["placeholders"].items()}
     return {"comps": comps, "nodes": obs["nodes"], "edges": sorted(obs["edges"]), "placeholders": ph,
-            "iter": obs["state"].get("currentIteration"), "cond": obs["state"].get("currentCondition")}
+            "docs": [{"iter": d["state"].get("currentIteration"), "cond": d["state"].get("currentCondition")}
+                     for d in obs["docs"]],
+            "ctlConditions": sorted(obs["ctl_conditions"]) if "ctl_conditions" in obs else None,
+            "ctlPreds": ({p: d["producers"] for p, d in obs["ctl_preds"].items()} if "ctl_preds" in obs else None)}
 
 
-def canon_model_step(ms):
+def canon_model_step(ms, obs):
     comps = {c["id"]: {"refs": c["refs"], "args": c["args"]} for c in ms["comps"]}
     ph = {p["id"]: {"latest": p["latest"], "represents": sorted(p["represents"]), "ref": p["ref"], "loopref": p["loopref"],
                     "maplatest": p["maplatest"]}
           for p in ms["placeholders"]}
-    cond = None
-    if ms["cond"] is not None:
-        st, name = ms["cond"].split(".", 1)
-        cond = "%s.%s%s:output" % (st, name, "/" + ms["condFile"] if ms["condFile"] else "")
+    docs = []
+    for d in ms["docs"]:
+        cond = None
+        if d["cond"] is not None:
+            st, name = d["cond"].split(".", 1)
+            cond = "%s.%s%s:output" % (st, name, "/" + d["condFile"] if d["condFile"] else "")
+        docs.append({"iter": d["iter"], "cond": cond})
     return {"comps": comps, "nodes": sorted(comps), "edges": sorted(set(map(tuple, ms["edges"]))), "placeholders": ph,
-            "iter": ms["iter"], "cond": cond}
+            "docs": docs,
+            "ctlConditions": sorted(x for x in ms["ctlConditions"] if x is not None) if "ctl_conditions" in obs else None,
+            "ctlPreds": ({p["id"]: sorted(p["preds"]) for p in ms["placeholders"]} if "ctl_preds" in obs else None)}
 
 
-def summarize(step):
-    """the comparison is per relation so that a disagreement names what differs"""
-    return step
-
-
-RELATIONS = [("components, their references and the reference occurrences of their arguments == Loop.run(...).comps", "comps"),
-             ("graph nodes == ids of Loop.run(...).comps", "nodes"),
-             ("graph edges == Loop.run(...).edges", "edges"),
+RELATIONS = [("components, their references and the reference occurrences of their arguments == Loop.runOps(...).comps", "comps"),
+             ("graph nodes == ids of Loop.runOps(...).comps", "nodes"),
+             ("graph edges == Loop.runOps(...).edges", "edges"),
              ("placeholders (represents as a set, latest, :ref producer, :loopref order, map_placeholder_id_to_iteration) == "
-              "Loop.placeholders/resolveProducer/loopRefOrder/mapPlaceholderLatest", "placeholders"),
-             ("currentIteration == Loop.curIter", "iter"),
-             ("currentCondition == Loop.currentCondition", "cond")]
+              "Loop.placeholdersM/resolveProducerM/loopRefOrderM/mapPlaceholderLatest", "placeholders"),
+             ("per document currentIteration, currentCondition == Loop.curIter, Loop.currentCondition", "docs"),
+             ("Controller.comp_condition_to_dowhile (producers of the current conditions) == Loop.ctlConditions", "ctlConditions"),
+             ("Controller._comp_get_active_predecessors(placeholder) (as a set, nothing done yet) == Loop.ctlPredecessors",
+              "ctlPreds")]
+
+
+def shares_names(case):
+    names = [c["name"] for lp in case["loops"] for c in lp["loop"]]
+    return len(set(names)) < len(names)
 
 
 def check_cases(ctx, cases):
@@ -531,44 +802,65 @@ def check_cases(ctx, cases):
         num = "c05_string_sorted_iteration_numbers" not in known
         if known:
             ctx.notes.append("known findings recorded for C05: %s (model compared with num=%s)" % (sorted(known), num))
+        cases = [(kind, norm(c)) for kind, c in cases]
         mouts = ctx.model([model_request(c, num=num) for _, c in cases])
         for idx, (kind, case) in enumerate(cases):
             out = impl_run(case, tmp)
-            k = case["k"]
-            nontrivial = k >= 1 and len(case["loop"]) >= 1
-            tags = ["kind:" + kind, "k:%s" % ("0" if k == 0 else "1-9" if k <= 9 else "10-12" if k <= 12 else "13-25"),
-                    "import-stage:%d" % case["import"], "looped-components:%d" % len(case["loop"]),
-                    "loopBindings:%d" % len(case["loopBindings"])]
-            if any(r["direct"] for c in case["loop"] for r in c["refs"]):
+            nl = len(case["loops"])
+            ks = counts(case["ops"], nl)
+            kmax = max(ks)
+            reads = [op[1] for op in case["ops"] if op[0] == "read"]
+            nontrivial = sum(ks) >= 1
+            tags = ["kind:" + kind, "documents:%d" % nl, "start-stage:%d" % case.get("start", 0),
+                    "kmax:%s" % ("0" if kmax == 0 else "1-9" if kmax <= 9 else "10-12" if kmax <= 12 else "13-25"),
+                    "controller:%s" % ("yes" if case.get("ctl") else "no"), "reads:%d" % min(len(reads), 5),
+                    "interleaving:%s" % case.get("mode", "?")]
+            tags += ["read:" + r for r in sorted(set(reads))]
+            if nl > 1:
+                # was a document listed earlier ever behind a document listed later when an iteration was instantiated?
+                behind = ahead = False
+                for n, op in enumerate(case["ops"]):
+                    if op[0] == "adv":
+                        kk = counts(case["ops"][:n + 1], nl)
+                        behind = behind or any(kk[a] < kk[b] for a in range(nl) for b in range(a + 1, nl))
+                        ahead = ahead or any(kk[a] > kk[b] for a in range(nl) for b in range(a + 1, nl))
+                if behind:
+                    tags.append("earlier-document-behind-later")
+                if ahead:
+                    tags.append("earlier-document-ahead-of-later")
+            if case["ops"] and case["ops"][-1][0] == "read":
+                tags.append("read-after-last-iteration")
+            for lp in case["loops"]:
+                tags.append("import-stage:%d" % lp["import"])
+                tags.append("looped-components:%d" % len(lp["loop"]))
+                tags.append("loopBindings:%d" % len(lp["loopBindings"]))
+            if any(r["direct"] for lp in case["loops"] for c in lp["loop"] for r in c["refs"]):
                 tags.append("has-direct-reference")
-            if any(r["stage"] is None and not r["direct"] and r["producer"] not in {b["key"] for b in case["bindings"]}
-                   for c in case["loop"] for r in c["refs"]):
+            if any(r["stage"] is None and not r["direct"] and r["producer"] not in {b["key"] for b in lp["bindings"]}
+                   for lp in case["loops"] for c in lp["loop"] for r in c["refs"]):
                 tags.append("has-relative-internal-reference")
-            if any(c["stage"] > 0 for c in case["loop"]):
+            if any(c["stage"] > 0 for lp in case["loops"] for c in lp["loop"]):
                 tags.append("template-stage>0")
             ctx.case(case, nontrivial=nontrivial, tags=tags)
             if "error" in out:
                 ctx.tag("impl:" + out["error"])
-                ctx.fail("real-code-raises-" + out["error"].replace(":", "-"), case, {"msg": out.get("msg"),
-                                                                                      "steps_done": len(out["steps"])})
+                ctx.fail("real-code-raises-" + out["error"].replace(":", "-"), case,
+                         {"msg": out.get("msg"), "steps_done": len(out["steps"]),
+                          "j": max(counts(case["ops"][:len(out["steps"])], nl))})
             else:
                 ctx.tag("impl:ok")
-            ctx.tag("iterations-executed", max(0, len(out["steps"]) - 1))
-            seen = set()
-            for j, obs in enumerate(out["steps"]):
-                for slug, detail in oracle_step(case, j, obs, None):
-                    if slug not in seen:      # first j at which this clause fails
-                        seen.add(slug)
-                        ctx.fail(slug, case, detail)
-                        ctx.tag("oracle:" + slug)
-            shared_names = len({c["name"] for c in case["loop"]}) < len(case["loop"])
+            ctx.tag("operations-executed", max(0, len(out["steps"]) - 1))
+            for slug, detail in oracle_run(case, out):
+                ctx.fail(slug, case, detail)
+                ctx.tag("oracle:" + slug)
+            shared_names = shares_names(case)
             if shared_names:
                 ctx.tag("looped-components-share-a-name")
             if mouts is not None:
                 msteps = mouts[idx]["steps"]
                 first_bad = None
                 for j, obs in enumerate(out["steps"]):
-                    ci, cm = canon_impl_step(obs), canon_model_step(msteps[j])
+                    ci, cm = canon_impl_step(obs), canon_model_step(msteps[j], obs)
                     if shared_names:      # map_placeholder_id_to_iteration matches on the name only: set-order dependent
                         for side in (ci, cm):
                             for e in side["placeholders"].values():
@@ -577,11 +869,17 @@ def check_cases(ctx, cases):
                         for side in (ci, cm):
                             for e in side["comps"].values():
                                 e["args"] = None
+                    if case.get("start", 0):      # components of skipped stages are done: not the model's `nothing done yet`
+                        ci["ctlPreds"] = cm["ctlPreds"] = None
                     if "c05_condition_namesake" in known and has_condition_namesake(case):
-                        ci["cond"] = cm["cond"] = None
+                        ci["docs"] = cm["docs"] = None
                         ci["edges"] = cm["edges"] = None     # the condition is a predecessor of the outside consumers
+                        ci["ctlConditions"] = cm["ctlConditions"] = None
+                        ci["ctlPreds"] = cm["ctlPreds"] = None
                     for rel, key in RELATIONS:
-                        ok = ctx.compare(rel, {"case": case, "j": j} if first_bad is None else {"j": j},
+                        if ci[key] is None and cm[key] is None:
+                            continue
+                        ok = ctx.compare(rel, {"case": case, "after_ops": j} if first_bad is None else {"after_ops": j},
                                          {key: cm[key]}, {key: ci[key]}) if first_bad is None else True
                         if not ok and first_bad is None:
                             first_bad = (j, key)
@@ -590,7 +888,7 @@ def check_cases(ctx, cases):
                 if first_bad is not None and ctx.driver is not None:
                     # diagnostic: does the implementation follow the string-keyed (unrepaired) model instead?
                     old = ctx.model([model_request(case, num=False)])[0]["steps"]
-                    same = not shared_names and all(canon_impl_step(o) == canon_model_step(old[j])
+                    same = not shared_names and all(canon_impl_step(o) == canon_model_step(old[j], o)
                                                     for j, o in enumerate(out["steps"]))
                     ctx.tag("impl==string-keyed-model(Old)" if same else "impl!=string-keyed-model(Old)")
     finally:
@@ -605,52 +903,102 @@ def fails_with(what, case, tmp):
     out = impl_run(case, tmp)
     if "error" in out and what.startswith("real-code-raises-"):
         return what == "real-code-raises-" + out["error"].replace(":", "-")
-    for j, obs in enumerate(out["steps"]):
-        if any(s == what for s, _ in oracle_step(case, j, obs, None)):
-            return True
-    return False
+    return any(s == what for s, _ in oracle_run(case, out))
 
 
-def drop_component(case, idx):
+def drop_component(case, l, idx):
     c2 = copy.deepcopy(case)
-    gone = c2["loop"][idx]
+    lp = c2["loops"][l]
+    gone = lp["loop"][idx]
     name = gone["name"]
     gid = (gone["stage"], name)
-    if gid == (case["cond"]["stage"], case["cond"]["name"]) or len(c2["loop"]) <= 1:
+    if gid == (lp["cond"]["stage"], lp["cond"]["name"]) or len(lp["loop"]) <= 1:
         return None
-    del c2["loop"][idx]
-    for c in c2["loop"]:
+    del lp["loop"][idx]
+    for c in lp["loop"]:
         keep = [i for i, r in enumerate(c["refs"]) if r["direct"] or
                 ((r["stage"] if r["stage"] is not None else c["stage"]), r["producer"]) != gid]
         if "args" in c:
             c["args"] = [keep.index(i) for i in c["args"] if i in keep]
         c["refs"] = [c["refs"][i] for i in keep]
-    c2["loopBindings"] = [b for b in c2["loopBindings"] if ((b["ref"]["stage"] or 0), b["ref"]["producer"]) != gid]
+    lp["loopBindings"] = [b for b in lp["loopBindings"] if ((b["ref"]["stage"] or 0), b["ref"]["producer"]) != gid]
     for c in c2["consumers"]:
-        c["refs"] = [r for r in c["refs"] if (r["stage"], r["producer"]) != (gid[0] + case["import"], name)]
+        c["refs"] = [r for r in c["refs"] if (r["stage"], r["producer"]) != (gid[0] + lp["import"], name)]
     c2["consumers"] = [c for c in c2["consumers"] if c["refs"]]
+    return c2 if c2["consumers"] else None
+
+
+def drop_loop(case, l):
+    """the case without document l (only the last document can go without shifting stages: a package needs
+    contiguous stage indices, so the sources of the dropped document stay)"""
+    if len(case["loops"]) <= 1:
+        return None
+    c2 = copy.deepcopy(case)
+    lp = c2["loops"][l]
+    gone = {(c["stage"] + lp["import"], c["name"]) for c in lp["loop"]}
+    del c2["loops"][l]
+    c2["ops"] = [[op[0], op[1] - 1 if op[1] > l else op[1]] if op[0] == "adv" else op
+                 for op in c2["ops"] if not (op[0] == "adv" and op[1] == l)]
+    for c in c2["consumers"]:
+        c["refs"] = [r for r in c["refs"] if (r["stage"], r["producer"]) not in gone]
+    c2["consumers"] = [c for c in c2["consumers"] if c["refs"]]
+    if not c2["consumers"]:
+        return None
+    used = {c["stage"] for c in c2["sources"] + c2["consumers"]} | {c["stage"] + q["import"] for q in c2["loops"] for c in q["loop"]}
+    for st in range(max(used) + 1):
+        if st not in used:
+            c2["sources"].append({"stage": st, "name": "fill%d" % st, "refs": []})
     return c2
 
 
 def shrink(what, case):
+    case = norm(case)
     tmp = tempfile.mkdtemp(prefix="c05-shrink-")
+    budget = [60]       # runs of the real code
+
+    def still(c2):
+        if c2 is None or budget[0] <= 0:
+            return False
+        budget[0] -= 1
+        try:
+            return fails_with(what, c2, tmp)
+        except Exception:
+            return False
     try:
         best = case
         # which namesake is taken for the condition depends on the set order of the process: keep enough iterations
         # for the replay to hit it whatever the hash seed
-        kstart = 6 if what == "current-condition-not-iteration-k" else 0
-        for k in range(kstart, case["k"]):      # smallest k with the same failure
-            c2 = dict(best, k=k)
-            if fails_with(what, c2, tmp):
+        nstart = 6 if what == "current-condition-not-iteration-k" else 0
+        for n in range(nstart, len(case["ops"])):      # shortest prefix of the operations with the same failure
+            c2 = dict(best, ops=case["ops"][:n])
+            if still(c2):
                 best = c2
                 break
         changed = True
-        while changed:
+        while changed and budget[0] > 0:
             changed = False
-            for ci in range(len(best["loop"])):
-                c2 = drop_component(best, ci)
-                if c2 is not None and fails_with(what, c2, tmp):
+            for l in range(len(best["loops"])):
+                c2 = drop_loop(best, l)
+                if still(c2):
                     best, changed = c2, True
+                    break
+            if changed:
+                continue
+            for i in range(len(best["ops"]) - 1, -1, -1):      # single operations, reads first
+                if best["ops"][i][0] == "read" or what != "current-condition-not-iteration-k":
+                    c2 = dict(best, ops=best["ops"][:i] + best["ops"][i + 1:])
+                    if still(c2):
+                        best, changed = c2, True
+                        break
+            if changed:
+                continue
+            for l in range(len(best["loops"])):
+                for ci in range(len(best["loops"][l]["loop"])):
+                    c2 = drop_component(best, l, ci)
+                    if still(c2):
+                        best, changed = c2, True
+                        break
+                if changed:
                     break
             if changed:
                 continue
@@ -659,7 +1007,7 @@ def shrink(what, case):
                     break
                 c2 = copy.deepcopy(best)
                 del c2["consumers"][i]
-                if fails_with(what, c2, tmp):
+                if still(c2):
                     best, changed = c2, True
                     break
         if best is not case:
@@ -680,15 +1028,16 @@ def classify_string_sorted_iterations(what, case, detail):
 def has_repeated_or_overlapping_args(case):
     """some looped component's command line repeats a reference, or uses a binding together with the relative spelling
     of a looped component of its own stage with the same method (the spelling is then a suffix of the substituted text)"""
-    keys = {b["key"] for b in case["bindings"]}
-    for c in case["loop"]:
-        idx = arg_indices(c)
-        if len(set(idx)) < len(idx):
-            return True
-        rel = [r for r in c["refs"] if not r["direct"] and r["stage"] is None and r["producer"] not in keys]
-        via = [r for r in c["refs"] if r["producer"] in keys]
-        if any(a["method"] == b["method"] for a in rel for b in via):
-            return True
+    for lp in norm(case)["loops"]:
+        keys = {b["key"] for b in lp["bindings"]}
+        for c in lp["loop"]:
+            idx = arg_indices(c)
+            if len(set(idx)) < len(idx):
+                return True
+            rel = [r for r in c["refs"] if not r["direct"] and r["stage"] is None and r["producer"] not in keys]
+            via = [r for r in c["refs"] if r["producer"] in keys]
+            if any(a["method"] == b["method"] for a in rel for b in via):
+                return True
     return False
 
 
@@ -699,20 +1048,24 @@ def classify_argument_text_rewrite(what, case, detail):
 
 
 def has_condition_namesake(case):
-    cond = case["cond"]
-    return any(c["name"] == cond["name"] and c["stage"] != cond["stage"] for c in case["loop"])
+    for lp in norm(case)["loops"]:
+        cond = lp["cond"]
+        if any(c["name"] == cond["name"] and c["stage"] != cond["stage"] for c in lp["loop"]):
+            return True
+    return False
 
 
 def classify_condition_namesake(what, case, detail):
     """currentCondition names iteration j of a looped component that has the condition's name but another stage"""
     if what != "current-condition-not-iteration-k" or not has_condition_namesake(case) or not isinstance(detail, dict):
         return False
+    lp = norm(case)["loops"][detail.get("loop", 0)]
     st = detail.get("state", {})
     got = ref_parse(st.get("currentCondition", ""))
     j = detail.get("j")
-    return (st.get("currentIteration") == j and got.get("producer") == "%d#%s" % (j, case["cond"]["name"])
-            and any(c["name"] == case["cond"]["name"] and c["stage"] + case["import"] == got.get("stage")
-                    for c in case["loop"]))
+    return (st.get("currentIteration") == j and got.get("producer") == "%d#%s" % (j, lp["cond"]["name"])
+            and any(c["name"] == lp["cond"]["name"] and c["stage"] + lp["import"] == got.get("stage")
+                    for c in lp["loop"]))
 
 
 CLASSIFIERS = {"c05_string_sorted_iteration_numbers": classify_string_sorted_iterations,
@@ -733,29 +1086,52 @@ def known_ids():
 # ----------------------------------------------------------------------------------------
 
 def run(ctx):
-    ctx.rule = ("case = generated package: 1-2 source components, a DoWhile document imported at stage 0-2 with 1-3 looped "
-                "components + a condition component at template stages 0-2, 1-3 input bindings (types output/ref/copy, "
-                "optional file names), loopBindings for a random subset of the used bindings, references between looped "
-                "components spelled relative or template-absolute with methods ref/output/copy/link, optional direct "
-                "data reference, 1-2 outside consumers using :ref/:output/:copy and 1-2 using :loopref; k further "
-                "iterations (quick: k <= 12 with at least a third of the cases at k >= 10, thorough: k <= 25); all "
-                "prefixes j <= k of each history are observed and compared.  non-trivial = k >= 1; distinct by the "
-                "canonical JSON of the case.")
+    from harness import detsim
+    detsim.install()          # before experiment.runtime is imported: fake engines, no threads
+    ctx.rule = ("case = generated package + operation sequence.  Package: 1-3 DoWhile documents, each imported at stage "
+                "0-2 with 1-3 looped components + a condition component at template stages 0-2, 1-3 input bindings to "
+                "its own source components (types output/ref/copy, optional file names), loopBindings for a random "
+                "subset of the used bindings, references between looped components spelled relative or "
+                "template-absolute with methods ref/output/copy/link, optional direct data reference; documents may "
+                "use the same component names in different stages (also the condition's); 1-2 outside consumers using "
+                ":ref/:output/:copy, optionally one consumer of a looped component of every document, 1-2 using "
+                ":loopref.  Operations: every document l instantiates k_l further iterations (quick: sum <= 14 with "
+                "about a third of the cases at some k_l >= 10, thorough: sum <= 34, k_l <= 25), documents interleaved "
+                "sequentially in document order, in reverse order or randomly (so that an earlier-listed document is "
+                "behind / ahead of a later one); in 65% of the cases the iterations are instantiated by a real "
+                "Controller (Controller._instantiate_next_dowhile_iteration) and 0-5 read operations (status report = "
+                "dependency analysis of all nodes and placeholders, _comp_get_active_predecessors of the placeholders, "
+                "placeholder states, scheduler dependency test, reference resolution) are inserted anywhere, often "
+                "after the last iteration.  The workflow is observed and compared after the load and after every "
+                "operation.  non-trivial = at least one iteration instantiated; distinct by the canonical JSON of "
+                "the case.")
     ctx.assumptions = [
-        "names of generated components contain no '#', looped component ids (stage, name) are distinct, binding values are "
-        "absolute references to components outside the loop (as in every DoWhile test of the repo)",
-        "no replication inside the loop; one DoWhile document per package",
+        "names of generated components contain no '#', looped component ids (stage, name) are distinct within and across "
+        "the documents, binding values are absolute references to components outside all loops (as in every DoWhile "
+        "test of the repo)",
+        "no replication inside the loop; nothing executes: the Controller is built with fake engines under "
+        "harness/detsim.py and only asked to instantiate iterations and to report (no component is ever done, so every "
+        "predecessor is 'active'); generated cases start at stage 0 (a Controller starting at a later stage is supported by the "
+        "case format, field `start`: RESTART_TWO_DOCUMENTS, not generated while the defect it exposes is open)",
         ":loopoutput shares looped_reference_to_paths with :loopref and is not exercised separately (it reads files)",
         "reference strings are parsed by the harness' own regular expression; the text-level parse/compile of references "
         "inside the real code is trusted here (property C09)"]
-    ctx.trusted.append("C05: references modelled in parsed form; experiment_from_flowir (tests/utils.py) used to load the package")
+    ctx.trusted.append("C05: references modelled in parsed form; experiment_from_flowir / new_controller (tests/utils.py) "
+                       "used to load the package and build the Controller; harness/detsim.py replaces engines, "
+                       "thread pools and timers of the runtime")
     ctx.classifiers = CLASSIFIERS
     ctx.shrinker = shrink
     rng = ctx.rng
     quick = ctx.tier == "quick"
     cases = [("corpus:minimal-k10", copy.deepcopy(MINIMAL)), ("corpus:minimal-k3", dict(copy.deepcopy(MINIMAL), k=3)),
+             ("corpus:minimal-k3-controller-reads",
+              dict(norm(dict(copy.deepcopy(MINIMAL), k=3)), ctl=True,
+                   ops=[["adv", 0], ["read", "status"], ["adv", 0], ["adv", 0], ["read", "preds"], ["read", "state"]])),
              ("corpus:condition-has-namesake-in-other-stage", copy.deepcopy(SAME_NAME)),
-             ("corpus:repeated-and-overlapping-argument-references", copy.deepcopy(REPEATED_ARG))]
+             ("corpus:repeated-and-overlapping-argument-references", copy.deepcopy(REPEATED_ARG)),
+             ("corpus:two-documents-earlier-behind-later", copy.deepcopy(TWO_DOCUMENTS)),
+             ("corpus:two-documents-no-controller",
+              dict(copy.deepcopy(TWO_DOCUMENTS), ctl=False, ops=[["adv", 1], ["adv", 0], ["adv", 1], ["adv", 1], ["read", "resolve"]]))]
     cdir = os.path.join(os.path.dirname(os.path.dirname(os.path.abspath(__file__))), "corpus", "C05")
     if os.path.isdir(cdir):
         import json
@@ -765,16 +1141,18 @@ def run(ctx):
                 cases.append(("corpus:" + fn, doc.get("input", doc)))
     if quick:
         ks = [0, 1, 2, 3, 5, 7, 9, 10, 10, 11, 12, 12]
-        n = 44
+        n, budget = 44, 14
     else:
         ks = [0, 1, 2, 4, 6, 9, 10, 11, 12, 13, 15, 19, 20, 21, 22, 25, 25]
-        n = 280
+        n, budget = 320, 34
     for _ in range(n):
-        cases.append(("generated", gen_case(rng, 12 if quick else 25, ks)))
+        cases.append(("generated", gen_case(rng, budget, ks)))
     check_cases(ctx, cases)
 
 
 def replay(ctx, doc):
+    from harness import detsim
+    detsim.install()
     ctx.classifiers = CLASSIFIERS
     case = doc.get("input")
     if case is None:
